@@ -1036,7 +1036,7 @@ EXPLANATION = (
     "that re-implementation that are tables or fixed protocols: operator->dunder tables against the data model, "
     "forward/reflected dispatch, chained comparisons and and/or folding, fail-closed dispatch (unsupported constructs "
     "and untranslatable match patterns are rejected), the order and the rejections of argument binding, free-name "
-    "resolution order, min/max, sibling handlers. NOT decided: bind_args against inspect.Signature.bind for every call "
+    "resolution order, min/max, sibling handlers, a keyword is accepted once per call (C10.kwonce). NOT decided: bind_args against inspect.Signature.bind for every call "
     "shape (an enumeration), closure/nonlocal value flow, comprehensions and starred unpacking."
 )
 ASSUMPTIONS = [
